@@ -398,7 +398,15 @@ func contradictsField(f *ssa.Function, field string, want bool) func(*ssa.BasicB
 		if !ok {
 			return false
 		}
-		ld, ok := iff.Cond.(*ssa.UnOp)
+		cond, neg := iff.Cond, false
+		for {
+			u, isU := cond.(*ssa.UnOp)
+			if !isU || u.Op != token.NOT {
+				break
+			}
+			cond, neg = u.X, !neg
+		}
+		ld, ok := cond.(*ssa.UnOp)
 		if !ok || ld.Op != token.MUL {
 			return false
 		}
@@ -406,7 +414,7 @@ func contradictsField(f *ssa.Function, field string, want bool) func(*ssa.BasicB
 		if !ok || fieldObj(fa).Name() != field {
 			return false
 		}
-		return (k == 0) != want
+		return ((k == 0) != neg) != want
 	}
 }
 
